@@ -138,10 +138,10 @@ Proof.
 Qed.
 
 (* the number of bestmove lines printed by one go is at most one, and exactly one when something was sent *)
-Lemma infos_are_infos ev : forall l, In l (infos_of ev) -> In (Info l) ev.
+Lemma infos_are_infos ev : forall l, In l (infos_of ev) -> exists d e, In (Info d e l) ev.
 Proof.
   intros l H. unfold infos_of in H. apply in_flat_map in H. destruct H as [e [He Hl]].
-  destruct e as [b|l']; cbn in Hl; [contradiction|]. destruct Hl as [Hl|[]]. subst. exact He.
+  destruct e as [b|d0 e0 l']; cbn in Hl; [contradiction|]. destruct Hl as [Hl|[]]. subst. exists d0, e0. exact He.
 Qed.
 
 End S.
